@@ -270,8 +270,14 @@ def h_setattr(eng):
     U = "C16/State.setattr"
     n = mk_names(eng, 1, "attrname")[0]
     V0, A0 = hv.snapshot(), ha.snapshot()
-    val = z3.Const("attr_value", ObjS)
-    k, v = run_catching(it, lambda: it.call(it.getattr_(State, "setattr"), [n, SV(val)], {}))
+    # any object, or None (an attribute may be SET TO None: it then exists, with that value)
+    from pyvc.values import obj_of
+    if eng.choose(2, "value-is-None"):
+        val, arg = obj_of(None), None
+    else:
+        val = z3.Const("attr_value", ObjS)
+        arg = SV(val)
+    k, v = run_catching(it, lambda: it.call(it.getattr_(State, "setattr"), [n, arg], {}))
     eng.cover(f"exit:{k}")
     three = nparts(n.t) == 3
     e = entity_of(n.t)
